@@ -2,7 +2,8 @@
 
 Domain   1-3 tracked files in a root history or a nested child history; 1-6 generations, each with a non-empty
          format subset (all 63 reachable), folder or -sf mode, and per file keep / alter / restore between
-         generations.  Enumerated completely: all ordered pairs of format subsets on one untouched file
+         generations; nested histories begun before or after the outer history recorded their
+         files.  Enumerated completely: all ordered pairs of format subsets on one untouched file
          (quick: subsets of size <= 2, 441 pairs; thorough: all 63 x 63 = 3969 pairs).
 Oracle   a ledger model kept by the harness (first digest per file and format, from hashlib/xxhash on the bytes
          the harness wrote) predicts for every new generation, read with the independent XML reader: the action
@@ -31,7 +32,7 @@ ASSUMPTIONS = [
     "files are only edited by the harness between runs, never during a run",
 ]
 BUDGET = {"quick": (260, 4), "thorough": (64000, 16)}
-REQUIRED = ["gens>=3", "alter", "restore", "nested", "nested_depth>=3", "sf", "new_format_added", "failed_recorded"]
+REQUIRED = ["gens>=3", "alter", "restore", "nested", "nested_depth>=3", "sf", "new_format_added", "failed_recorded", "nested_history_begun_later"]
 CLI = refhash.CLI_FORMATS
 
 FILES = ["a.txt", "sub/a.txt", "cafe\u0301.txt", "sub2/b.bin", "sub/b.bin", "sub/deep/c c.txt", "sub/deep/er/est/d.mov", "sub/\u212bngstrom 100%.mov"]
@@ -51,9 +52,14 @@ def _scenario(draw):
         nested = [r for r in nested if any(f.startswith(r + "/") for f in files)]
     ngen = draw(st.integers(1, 6))
     gens = []
+    # late: the outer history records everything first and the nested histories are begun afterwards, at any later point
+    # (their first generation then meets files - and same-named files - that the parent has on record already)
+    late = bool(nested) and draw(st.sampled_from([False, False, True]))
     for i in range(ngen + len(nested)):
         fm = draw(st.lists(st.sampled_from(CLI), min_size=1, max_size=draw(st.sampled_from([1, 1, 2, 2, 3, 6])), unique=True))
-        if i < len(nested):
+        if late:
+            root = "" if i == 0 else draw(st.sampled_from(nested + nested + [""]))
+        elif i < len(nested):
             root = nested[i]
         else:
             root = draw(st.sampled_from(nested)) if nested and draw(st.integers(0, 3)) == 0 else ""
@@ -63,11 +69,11 @@ def _scenario(draw):
         if mode == "sf":
             sel = draw(st.lists(st.sampled_from(scope), min_size=1, max_size=len(scope), unique=True))
         edits = {}
-        if i >= max(1, len(nested)):
+        if i >= (1 if late else max(1, len(nested))):
             for f in files:
                 edits[f] = draw(st.sampled_from(["keep", "keep", "keep", "alter", "restore"]))
         gens.append({"formats": fm, "root": root, "sf": sel, "edits": edits})
-    return {"files": files, "nested": nested, "gens": gens}
+    return {"files": files, "nested": nested, "gens": gens, "late": late}
 
 
 def strategy(tier):
@@ -219,6 +225,8 @@ def run_case(scn, ctx):
             ctx.event("nested")
         if len(scn["nested"] or []) >= 3:
             ctx.event("nested_depth>=3")
+        if scn.get("late") and any(g["root"] for g in gens):
+            ctx.event("nested_history_begun_later")
         if any(g["sf"] for g in gens):
             ctx.event("sf")
         ctx.mark_nontrivial((n >= 3 and fmt_change) or (alters and restores))
